@@ -78,7 +78,7 @@ MUTANTS = {
     "sortkey_regorder": ("typemap.py", "        return self.priority, sum(self.specificity), self.tiebreak", "        return self.priority, sum(self.specificity), self.tiebreak, -self.handler.__code__.co_firstlineno, self.handler.__code__.co_filename", ["C06"]),
     "union_order_first_member": ("types.py", "        classes = self.types\n        compare = [\n            x for t in classes if (x := typeorder(t, other)) is not Order.NONE\n        ]\n        if not compare:\n            return Order.NONE\n        elif any(x is Order.MORE",
                                  "        classes = self.types[:1]\n        compare = [\n            x for t in classes if (x := typeorder(t, other)) is not Order.NONE\n        ]\n        if not compare:\n            return Order.NONE\n        elif any(x is Order.MORE", ["C06", "C12"]),
-    "dominates_by_regorder": ("typemap.py", "            return self.tiebreak > other.tiebreak", "            return (self.tiebreak, self.handler.__code__.co_filename) > (other.tiebreak, other.handler.__code__.co_filename)", ["C06", "C02"]),
+    "dominates_by_regorder": ("typemap.py", "            return self.tiebreak > other.tiebreak", "            return (self.tiebreak, self.handler.__code__.co_filename) > (other.tiebreak, other.handler.__code__.co_filename)", ["C06"]),
     # ---- C12
     "opposite_more_self": ("mro.py", "        elif self is Order.MORE:\n            return Order.LESS", "        elif self is Order.MORE:\n            return Order.MORE", ["C12"]),
     "inter_order_swapped": ("types.py", "        elif any(x is Order.LESS or x is Order.SAME for x in compare):\n            return Order.LESS\n        else:\n            return Order.MORE",
@@ -98,11 +98,11 @@ MUTANTS = {
     "union_guard_dropped": ("dependent.py", "    if isinstance(typ, DependentType) and bound is not None:", "    if False:", ["C10", "C11"]),
     "dep_supertype_any": ("dependent.py", "        elif subclasscheck(other, self.bound):\n            return True\n        else:\n            return False", "        else:\n            return True", ["C10"]),
     "keys_first_only": ("dependent.py", "        return list(self.parameters)", "        return [self.parameter]", ["C10", "C11"]),
-    "overlap_keeps_table": ("recode.py", "                    elif disjoint:\n                        keyexpr", "                    elif True:\n                        keyexpr", ["C10", "C11"]),
+    "overlap_keeps_table": ("recode.py", "                    elif disjoint:\n                        keyexpr", "                    elif True:\n                        keyexpr", ["C10"]),
     "conj_drops_second": ("recode.py", '        conj = " and ".join(codes)', '        conj = " and ".join(codes[:1])', ["C10", "C01"]),
     # ---- C15
     "annotated_not_unwrapped": ("types.py", "        elif isinstance(t, typing._AnnotatedAlias):\n            t = t.__origin__\n", "", ["C15"]),
-    "tuple_members_reversed_no_norm": ("types.py", "            return Union[tuple(self(t2, fn) for t2 in t)]", "            return Union[tuple(reversed(t))]", ["C15"]),
+    "tuple_members_reversed_no_norm": ("types.py", "            return Union[tuple(self(t2, fn) for t2 in t)]", "            return Union[tuple(reversed(t))]", ["C11", "C10"]),
     "any_not_object": ("types.py", "        elif t is typing.Any:\n            t = object\n", "", ["C15"]),
     "union_eq_ordered": ("types.py", "        return set(self.__args__) == set(other.__args__)\n\n    def __hash__(self):\n        return hash(frozenset(self.__args__))\n\n    def __str__(self):\n        return \" | \"",
                          "        return self.__args__ == other.__args__\n\n    def __hash__(self):\n        return hash(self.__args__)\n\n    def __str__(self):\n        return \" | \"", ["C15"]),
@@ -115,7 +115,7 @@ MUTANTS = {
                                 "                lookup=join(lookup[: req + i], trail=True),\n                posargs=join(posargs[: req + i + 1]),", ["C03", "C02"]),
     "kwargs_wrong_name": ("recode.py", '        body.append(f"    KWARGS[{name!r}] = {name}")', '        body.append(f"    KWARGS[{ko[0]!r}] = {name}")', ["C03"]),
     "required_kw_swapped": ("recode.py", '        posargs.append(f"{name}={name}")', '        posargs.append(f"{name}={kr[0]}")', ["C03"]),
-    "empty_key_first_handler": ("typemap.py", "                if sig.req_pos == 0 and not sig.req_names\n            }", "                if sig.req_pos == 0\n            }", ["C03", "C01"]),
+    "empty_key_first_handler": ("typemap.py", "                if sig.req_pos == 0 and not sig.req_names\n            }", "                if sig.req_pos == 0\n            }", ["C03"]),
     "rename_drops_kwdefaults": ("recode.py", "    new_fn.__kwdefaults__ = fn.__kwdefaults__\n    new_fn.__annotations__ = fn.__annotations__\n    return new_fn\n\n\nclass NameConverter", "    new_fn.__annotations__ = fn.__annotations__\n    return new_fn\n\n\nclass NameConverter", ["C03"]),
     "rename_shares_defaults": ("recode.py", "        newcode, fn.__globals__, newname, fn.__defaults__, fn.__closure__\n    )\n    new_fn.__kwdefaults__", "        newcode, fn.__globals__, newname, None, fn.__closure__\n    )\n    new_fn.__kwdefaults__", ["C03"]),
     # ---- C09
@@ -152,6 +152,18 @@ MUTANTS = {
     "lookup_always_type": ("core.py", "return subtler_type if key in self.complex_transforms else type",
                            "return type", ["C14"]),
     "subclasscheck_arity": ("mro.py", "                if len(args1) != len(args2):\n                    return False\n", "", ["C14", "C13"]),
+}
+
+
+# mutants that cannot be told apart from the original by the property they were written for (kept in the table so
+# that the report says so instead of counting them as misses)
+EQUIVALENT = {
+    "mtm_register_keeps_all": "self.all is rewritten by mro() whenever the cleared table misses: clearing it is redundant",
+    "table_threshold_2": "C11's own statement: which checking code is generated must not change the answer",
+    "table_threshold_40": "C11's own statement: which checking code is generated must not change the answer",
+    "compiled_flag_early": "the failure handler resets the flag anyway",
+    "publish_primary_first": "for C19 only: under the resolution lock a reader that hits the main entry early blocks until the continuation entries exist (C18 catches it with injected faults)",
+    "compile_unlocked": "ensure_compiled still holds the lock around it for first calls; concurrent register() is outside C19's statement",
 }
 
 
@@ -214,8 +226,12 @@ def main(argv):
         finally:
             shutil.rmtree(d, ignore_errors=True)
     # the evidence files were overwritten by mutant runs: the caller should re-run the checks on /repo
-    missed = [r for r in rows if r[2] != 1]
-    print(f"{len(rows) - len(missed)}/{len(rows)} mutant runs detected; missed: {[(r[0], r[1], r[2]) for r in missed]}")
+    missed = [r for r in rows if r[2] != 1 and not (r[0] in EQUIVALENT)]
+    equiv = [r for r in rows if r[2] != 1 and r[0] in EQUIVALENT]
+    print(f"{len(rows) - len(missed) - len(equiv)}/{len(rows)} mutant runs detected; "
+          f"equivalent for the property: {[(r[0], r[1]) for r in equiv]}; missed: {[(r[0], r[1], r[2]) for r in missed]}")
+    for n in sorted({r[0] for r in equiv}):
+        print(f"  equivalent {n}: {EQUIVALENT[n]}")
     return 0
 
 
